@@ -122,6 +122,17 @@ CHECKS = {
         "assumptions": ["gogo-protobuf Size()/Marshal() are consistent", "the shape alphabet is representative of RPC structure (sizes are not)"],
         "design_ref": "DESIGN.md §5 C11",
     },
+    "C12": {
+        "level": "exploration", "shards": 16, "deadline_quick": 110, "deadline_thorough": 1800,
+        "engine": "E-WORLD, worker-process isolation",
+        "technique": "bounded-exhaustive input enumeration: every proper prefix, every single-byte substitution from {00,01,7f,80,ff} and every length-prefix variant of a frame corpus, plus all <=2-field adversarial deviations of every RPC kind, each against a fresh real node in its own execution; a crash is attributed through an in-flight marker",
+        "rule": "cases = (router, attacker protocol) x (frame mutations of a 5-frame corpus covering all RPC kinds | field-deviation RPCs from 9 templates x 13 adversarial values); every case is a distinct input that reaches the stream reader / RPC handlers, so non-trivial = distinct case executed",
+        "level_text": "every enumerated byte stream / hostile RPC is written to an inbound stream of a fresh real node (gossipsub with scoring, gater, PX, extensions, partial messages and the sequence-number validator; floodsub; randomsub) by peers of every protocol version, "
+                      "optionally after a benign subscribe+GRAFT; the worker must survive, the event loop and API must answer, an honest peer's message must still be delivered, bystander streams must stay up, and oversized / undecodable / truncated frames must reset the stream they arrived on",
+        "level_note": "universal only over the enumerated mutations; sequences longer than setup+1 hostile RPC are not enumerated",
+        "assumptions": ["a panic in any goroutine terminates the worker process (Go semantics), so survival of the worker means no panic"],
+        "design_ref": "DESIGN.md §5 C12",
+    },
     "C13": {
         "level": "model_checking", "shards": 5, "deadline_quick": 110, "deadline_thorough": 1800,
         "engine": "E-WORLD",
